@@ -1968,14 +1968,6 @@ REQUEST_FUNC(mod_deflate_handle_response_start) {
 		return HANDLER_GO_ON;
 	}
 
-	/* Check Accept-Encoding for supported encoding. */
-	vbro = http_header_request_get(r, HTTP_HEADER_ACCEPT_ENCODING, CONST_STR_LEN("Accept-Encoding"));
-	if (NULL == vbro) return HANDLER_GO_ON;
-
-	/* find matching encodings */
-	compression_type = mod_deflate_choose_encoding(vbro->ptr, p, &label);
-	if (!compression_type) return HANDLER_GO_ON;
-
 	/* Check mimetype in response header "Content-Type" */
 	if (NULL != (vbro = http_header_response_get(r, HTTP_HEADER_CONTENT_TYPE, CONST_STR_LEN("Content-Type")))) {
 		if (NULL == array_match_value_prefix(p->conf.mimetypes, vbro)) return HANDLER_GO_ON;
@@ -1996,6 +1988,17 @@ REQUEST_FUNC(mod_deflate_handle_response_start) {
 					    CONST_STR_LEN("Vary"),
 					    CONST_STR_LEN("Accept-Encoding"));
 	}
+
+	/* Check Accept-Encoding for supported encoding.
+	 * (after Vary has been set: the identity variant of a response which
+	 *  would be compressed for another Accept-Encoding is subject to the
+	 *  same negotiation (RFC 9110 12.5.5)) */
+	vbro = http_header_request_get(r, HTTP_HEADER_ACCEPT_ENCODING, CONST_STR_LEN("Accept-Encoding"));
+	if (NULL == vbro) return HANDLER_GO_ON;
+
+	/* find matching encodings */
+	compression_type = mod_deflate_choose_encoding(vbro->ptr, p, &label);
+	if (!compression_type) return HANDLER_GO_ON;
 
 	/* check ETag as is done in http_response_handle_cachable()
 	 * (slightly imperfect (close enough?) match of ETag "000000" to "000000-gzip") */
